@@ -91,6 +91,16 @@ def _crashfault(r):
     import errno
     from . import crashfault
     base = os.path.join(tlc.scratch_root(), "replayf")
+    envdir = None
+    if r.get("env"):
+        # the scenario was enumerated with this variable naming a directory on another device
+        os.makedirs(base, exist_ok=True)
+        envdir = crashfault.other_device_dir(base)
+        if envdir is None:
+            print("no second writable device on this machine: cannot replay under", r["env"])
+            return 2
+        os.environ[r["env"]] = envdir
+        print("replaying with %s=%s" % (r["env"], envdir))
     en = crashfault.Enumerator(r["start"], r["call"], base)
     if r["kind"] == "crash":
         x = en.crash(r["k"])
@@ -104,6 +114,9 @@ def _crashfault(r):
         print("result:", x["res"]["cls"], "post:", json.dumps(x["post"]), "locks left:", x["locksLeft"],
               "retry:", x["retry"]["cls"])
     shutil.rmtree(base, ignore_errors=True)
+    if envdir:
+        shutil.rmtree(envdir, ignore_errors=True)
+        os.environ.pop(r["env"], None)
     viol, jr, nc, nf = crashfault.judge(res)
     names = sorted({v[0] for v in viol})
     print("clauses false now:", names)
